@@ -193,6 +193,46 @@ def check_chunk(args):
                         break
         finally:
             shutil.rmtree(d, ignore_errors=True)
+    # third surface: ONE directive evaluated for many platforms.  `#define E (P op Q)` / `#if E`: the operands
+    # reach the expression only through the expansion of E; every platform supplies its own P and Q
+    def is_lit(t):
+        return t[0].isdigit() or t[0] == "'"
+    bins = [case for case, ps in blocks if len(case["sp"]) == 3 and is_lit(case["sp"][0]) and is_lit(case["sp"][2])][:600]
+    if bins:
+        d = tempfile.mkdtemp(prefix="c02m-", dir=workdir)
+        try:
+            ops = sorted({c["sp"][1] for c in bins})
+            files = {}
+            for oi, op in enumerate(ops):
+                path = os.path.join(d, f"op{oi}.c")
+                with open(path, "w") as f:
+                    f.write(f"#define E (P {op} Q)\n#if E\nint t;\n#else\nint e;\n#endif\n")
+                files[op] = path
+            conf = {}
+            want = {}
+            for i, c in enumerate(bins):
+                name = f"c{i}"
+                conf[name] = [cbi.entry(files[c["sp"][1]], [f"P={c['sp'][0]}", f"Q={c['sp'][2]}"])]
+                want[name] = (files[c["sp"][1]], bool(c["truth"]), c)
+            st, cb, logs, err = cbi.run_find(d, conf)
+            stats["evals"] += len(conf)
+            if err is not None:
+                fails.append(dict(layer="G", tags=["file", "by-macro", "exception"], symptom=f"exception:{err[0]}",
+                                  detail=f"finder.find, {len(conf)} platforms over {len(ops)} files `#define E (P op Q)`: {err[1]}",
+                                  case=None))
+            else:
+                attr = {pth: cbi.line_attr(st, pth) for pth in files.values()}
+                for name, (pth, truth, c) in want.items():
+                    got_t = name in attr[pth].get(3, ())
+                    got_e = name in attr[pth].get(5, ())
+                    if (got_t, got_e) != (truth, not truth):
+                        fails.append(dict(layer="G", tags=sorted(tags_of(c) | {"file", "by-macro"}), symptom="file-attribution-differs",
+                                          detail=f"#define E (P {c['sp'][1]} Q) / #if E with -DP={c['sp'][0]} -DQ={c['sp'][2]} "
+                                                 f"(one of {len(conf)} platforms on the same directive): then-line used={got_t}, "
+                                                 f"else-line used={got_e}; ISO C truth {truth}", case=dict(case=c)))
+                        break
+        finally:
+            shutil.rmtree(d, ignore_errors=True)
     return fails, stats
 
 
